@@ -2,10 +2,12 @@
    the part of manager.go that drives it, as an explicit transition system
    (definitions only, no proofs).
 
-   One session. The state holds what the Go controller holds -- the lifecycle
-   lock, [disabled], the synchronization loop (cancel/done/flushRequests are
-   the loop record, present iff c.cancel != nil), the status -- plus the two
-   persisted files and the manager's registration of the controller.
+   One session. The state holds what the Go controller holds -- [disabled], the
+   synchronization loop (cancel/done/flushRequests are the loop record, present
+   iff c.cancel != nil), the status -- plus the two persisted files and the
+   manager's registration of the controller. The lifecycle lock is held by the
+   thread that is inside its critical section (program counters TJoin,
+   TResetArch, TResetResume, TConn); it can be taken when no thread is.
 
    Threads are command invocations (Manager.Create / Pause / Resume / Flush /
    Reset / Terminate / Shutdown), each a small program over the lifecycle lock
